@@ -36,7 +36,7 @@ def run(tier, seed):
                 it["ok"] = True
                 return k + 1
         return 0
-    seeds = [seed * 1000 + i for i in range(2 if quick else 10)]
+    seeds = [seed * 1000 + i for i in range(2 if quick else 30)]
     vlib.trace_rounds(c, "Trace_SignedObj", "sigobj", seeds, 150 if quick else 1500, mut)
     c.cov["rule"] = ("cases = every state of the deviation machine: 10 conforming bases (4 kinds; the generic object in 7 signed-attribute sizes "
                      "127/128/129/255/256/257/107 bytes) x all single and double deviations over 8 facets (20 deviating values); non-trivial = "
